@@ -151,11 +151,12 @@ def run_cases(v, wd, cases, tag, compare=True):
     got, want, idx = [], [], []
     tot = {'calls': 0, 'queries': 0, 'runs': 0, 'query_errors': 0, 'reruns': 0, 'skipped': 0, 'totals_pairs': 0,
            'raised_and_left_state_perturbed': 0, 'ended_by_raising_query': 0, 'run_raises_in_both': 0,
+           'totals_pairs_residuals_changed': 0,
            'query_kinds': {}}
     for i, (c, r) in enumerate(zip(cases, results)):
         st = r.get('stats', {})
         for k in ('calls', 'queries', 'runs', 'query_errors', 'reruns', 'raised_and_left_state_perturbed',
-                  'totals_pairs', 'ended_by_raising_query', 'run_raises_in_both'):
+                  'totals_pairs', 'totals_pairs_residuals_changed', 'ended_by_raising_query', 'run_raises_in_both'):
             tot[k] += st.get(k, 0)
         for k, n in st.get('query_kinds', {}).items():
             tot['query_kinds'][k] = tot['query_kinds'].get(k, 0) + n
